@@ -605,7 +605,7 @@ pub fn def() -> PropertyDef {
         assumptions: vec!["list arguments are proper lists (instances outside that domain are not judged)", "completeness is asserted only when the search was exhausted within the step budget"],
         families: vec![
             Family { name: "relations", max_len: 96, quick: 120_000, thorough: 2_500_000, run: run_family },
-            Family { name: "long-lists", max_len: 32, quick: 20_000, thorough: 500_000, run: run_long },
+            Family { name: "long-lists", max_len: 32, quick: 20_000, thorough: 200_000, run: run_long },
         ],
         fixed: vec![],
         witnesses: vec![Witness { finding: FINDING_PERMUTE, run: witness_permute }],
